@@ -472,6 +472,10 @@ func c10Walk(res *ev.Result, unit string, r *rng.R, style int) {
 	if style >= 4 {
 		targets = []int{4, 5, 4, 5, 3, 16, 17, 16, 17, 13, 12, 13, 12, 48, 49, 48, 49, 38, 37, 38, 37, 60, 37, 12, 3, 2}
 	}
+	if style%3 == 2 {
+		// stay inside the 48 class: fill it completely, punch holes, refill, churn
+		targets = []int{17, 48, 40, 48, 47, 48, 30, 48, 13, 48, 47, 48, 20, 31, 30, 31, 30, 31, 30, 31, 30, 31, 30, 31, 30, 31, 30, 31, 30, 31, 30, 31, 30, 31, 30, 31, 30, 48, 12, 3, 2}
+	}
 	kinds := map[int]bool{}
 	for _, tg := range targets {
 		for len(nm.m) < tg && !nm.dead {
